@@ -50,14 +50,23 @@ def _case(draw):
             prog["comps"].append(["->", ["==", ["f", "line_number", [], []], ["t", draw(st.integers(1, nrec))]], ["f", "stop", [], []]])
         elif ending == "fail":
             prog["comps"].append(["->", ["==", ["f", "line_number", [], []], ["t", draw(st.integers(1, nrec))]], ["f", "fail", [], []]])
+        if draw(st.integers(0, 3)) == 2:
+            # a component that errors (collected, not raised) on the lines whose 'e' cell is 'x'
+            prog["comps"].insert(draw(st.integers(0, len(prog["comps"]))), ["=", "zz", [], None, ["f", "add", [], [["h", "e"], ["t", 1]]]])
         members.append({"prog": prog, "scan": scan, "id": f"m{i}" if draw(st.integers(0, 3)) != 0 else None,
                         "unmatched": draw(st.integers(0, 2)) == 0, "ending": ending})
-    # a dense column of awkward cells, appended after program generation (programs do not read it)
+    # dense columns appended after program generation: 'e' (benign '5' or offending 'x') and awkward 'note' cells
+    table["cols"].append({"name": "e", "type": "err", "dense": True})
     table["cols"].append({"name": "note", "type": "note", "dense": True})
     first = True
+    ncols = len(table["cols"]) - 2
     for r in table["records"]:
         if not r:
             continue
+        while len(r) < ncols:
+            r.append("")
+        del r[ncols:]
+        r.append("e" if first else ("x" if draw(st.integers(0, 3)) == 1 else "5"))
         r.append("note" if first else draw(st.sampled_from(NOTES)))
         first = False
     return {"table": table, "members": members, "method": draw(st.sampled_from(list(real.METHODS)))}
@@ -197,10 +206,10 @@ def run_case(case, sb):
         up = os.path.join(mdir, "unmatched.csv")
         if method == "collect_paths" and m["unmatched"]:
             got = read_csv(up) if os.path.isfile(up) else []
-            exp = [ln for ln in (r["unmatched"] or [])]
-            # blank records inside 'unmatched' are tolerated (csv round trip drops them)
-            if [g for g in got if g] != [e for e in exp if e]:
-                problems.append({"member": name, "unmatched.csv": got, "standalone_unmatched": exp})
+            exp = [list(ln) for ln in (r["unmatched"] or [])]
+            mem = [list(ln) for ln in (o["unmatched"] or [])]
+            if got != mem or mem != exp:
+                problems.append({"member": name, "unmatched.csv": got, "in_memory_unmatched": mem, "standalone_unmatched": exp})
         man = files["manifest.json"]
         if man.get("valid") != o["is_valid"] or o["is_valid"] != r["is_valid"]:
             problems.append({"member": name, "manifest.valid": man.get("valid"), "in_memory": o["is_valid"], "standalone": r["is_valid"]})
